@@ -2,3 +2,28 @@
 (request line, implementation answer).  A violating case is reported as
 KNOWN-FINDING only if a `known` entry of known_findings.json names a classifier
 that accepts it; everything else is a VIOLATION."""
+
+
+def _find_req(req):
+    """(flag, [root wire forms], [arg tokens]) of a `find` request line"""
+    parts = req.split(" ")
+    if len(parts) != 4 or parts[0] != "find":
+        return None
+    return parts[1], parts[2].split(";"), ([] if parts[3] == "." else parts[3].split(","))
+
+
+def C03_H_root_link_depth(req, imp):
+    """-H with a starting point that is a symbolic link to a directory, in post-order
+    (-depth, -d): walkdir does not defer a root link it follows only because of
+    follow_root_links, so the starting point is reported before its contents and the
+    directories directly below it after all their siblings."""
+    r = _find_req(req)
+    if r is None:
+        return False
+    flag, roots, args = r
+    if flag != "H" or "follow" in args:
+        return False
+    if not any(a in ("depth", "d", "delete") for a in args):
+        return False
+    # some starting point is a link that resolves to a directory: d.<name>.1x...
+    return any(("=" in w) and w.split("=", 1)[1].startswith("d.-.1") for w in roots)
